@@ -16,7 +16,7 @@ func init() {
 			}
 			return 40000
 		},
-		Rule: "case = one persisted tree (bf 2..64, 1..4000 entries, heights 0..8; every 15th case 5000-40000 entries) over a Load-counting store with NO cache, re-opened from its root; then ~40 point operations, each measured on its own: LoadMast <= 1 node, Clone/Cursor <= 1, Get (present and absent keys of every layer, extremes) <= height+1, Insert (new key at every layer, update) and Delete with unchanged height <= 2*(height+1), cursor Min/Max/Ceil/Forward/Backward <= 2*(height+1); half of the operations run on a fresh clone of the persisted version, the rest accumulate on one tree so that dirty in-memory paths mix with persisted subtrees; reads are counted as distinct names passed to Persist.Load during the call; non-trivial = height >= 2; distinct by (root, op, key)",
+		Rule:        "case = one persisted tree (bf 2..64, 1..4000 entries, heights 0..8; every 15th case 5000-40000 entries) over a Load-counting store with NO cache, re-opened from its root; then ~40 point operations, each measured on its own: LoadMast <= 1 node, Clone/Cursor <= 1, Get (present and absent keys of every layer, extremes) <= height+1, Insert (new key at every layer, update) and Delete with unchanged height <= 2*(height+1), cursor Min/Max/Ceil/Forward/Backward <= 2*(height+1); half of the operations run on a fresh clone of the persisted version, the rest accumulate on one tree so that dirty in-memory paths mix with persisted subtrees; reads are counted as distinct names passed to Persist.Load during the call; non-trivial = height >= 2; distinct by (root, op, key)",
 		Assumptions: []string{"nodes read = distinct node names loaded during the call (the number of Load calls is recorded as an observation as well)"},
 		MinObs:      map[string]int64{"ops_measured": 20000, "ops_on_height_ge3": 2000, "inserts_measured": 3000, "deletes_measured": 3000},
 		Run:         runC16,
